@@ -5,7 +5,7 @@ outermost domain always wins'."""
 import numpy as np
 
 PROP = "C12"
-CASES = {"quick": 2500, "thorough": 60000}
+CASES = {"quick": 2500, "thorough": 200000}
 CASE_TIMEOUT = 30
 REQUIRED = ["full_keys", "nested_keys", "outer_lists", "slices", "foreign_keys", "rows_as_distributions",
             "iteration_checks", "class:Table", "class:ProbabilityTable", "class:StateTable",
